@@ -229,37 +229,12 @@ pub(crate) fn decouple_v_models(
             Some(ExprOrSpread { spread: None, expr }) => expr.array(),
             _ => None,
         })
-        .map(|ArrayLit { mut elems, .. }| {
-            let argument = elems
-                .get(1)
-                .and_then(|elem| {
-                    if let Some(ExprOrSpread { spread: None, expr }) = elem {
-                        expr.as_lit()
-                    } else {
-                        None
-                    }
-                })
-                .and_then(|lit| {
-                    if let Lit::Str(Str { value, .. }) = lit {
-                        Some(value.clone())
-                    } else {
-                        None
-                    }
-                });
-            if argument.is_some() {
-                elems.remove(1);
-            }
+        .map(|ArrayLit { elems, .. }| {
+            // every entry is the array form of a `v-model`; a string argument stays the second
+            // element (as an attribute name it would be split at `_` into modifiers)
             JSXAttrOrSpread::JSXAttr(JSXAttr {
                 span: DUMMY_SP,
-                name: if let Some(argument) = argument {
-                    JSXAttrName::JSXNamespacedName(JSXNamespacedName {
-                        span: DUMMY_SP,
-                        ns: quote_ident!("v-model"),
-                        name: quote_ident!(argument),
-                    })
-                } else {
-                    JSXAttrName::Ident(quote_ident!("v-model"))
-                },
+                name: JSXAttrName::Ident(quote_ident!("v-model")),
                 value: Some(JSXAttrValue::JSXExprContainer(JSXExprContainer {
                     span: DUMMY_SP,
                     expr: JSXExpr::Expr(Box::new(Expr::Array(ArrayLit {
